@@ -8,7 +8,7 @@ from vlib import *
 import gen_graphs as gg
 
 FIELDS = {
-    "C01": ["paths", "subset", "once", "complete", "no_panic"],
+    "C01": ["paths", "subset", "once", "complete", "no_panic", "recorders"],
     "C02": ["verdicts", "asserts", "report", "no_panic"],
     "C03": ["witness", "report", "no_panic"],
     "C11": ["ev_sound", "ev_exact", "no_panic"],
@@ -159,6 +159,9 @@ def c01(res):
         if not q and g["id"].startswith("F1-"):
             return std_cfgs([1]) + ([gg.base_cfg("bfs", 2), gg.base_cfg("dfs", 3)] if i % 5 == 0 else [])
         c = std_cfgs(threads if i % 4 == 0 else threads[:2])
+        if i % 2 == 0:
+            for x in c:
+                x["recorders"] = True      # the crate's PathRecorder / StateRecorder are fed next to the log visitor
         return c
     res.rule = ("graphs: F1 = all graphs with <=2 nodes/<=2 actions x inits x boundaries (sampled in quick), F2 = seeded "
                 "random graphs 3-14 nodes with self-loops, joins, cycles, parallel and ignored actions, several inits, "
